@@ -101,4 +101,16 @@ PROPS = {
         explanation="Lean theorems (flush barrier, none/size/immediate/interval policy, snapshot conservation, no empty cut) over all event histories of the upstream model; tie = the C01 lock-step correspondence",
         assumptions=["interval policy: 'within one interval' is measured, not proved (a tick is an event)"],
     ),
+    'C02': dict(
+        lean_modules=['Iscp.Props.C02'],
+        gen=[],
+        harnesses=[dict(name='up', pkg='./corr/up', topic='up', n_quick=300, n_thorough=2500, thorough_seeds=4, timeout=600)],
+        trusted_base=COMMON_TB + [
+            "the scripted in-memory broker (go/broker): a new in-memory transport per dial, severable at any message boundary (incl. dropping a chunk in flight); hook H1, H2",
+            "modelled, not verified: which chunks reached the broker before a failure (the theorems hold for every choice), redial back-off timing, keepalive-based detection of the dead transport (20 ms ping interval in the harness)",
+        ],
+        rule="the C01 lock-step harness with transport failures injected at random op positions for reliable streams: kill (between ops), killafter (right after a chunk arrived, before its ack), killdrop (chunk lost in flight), one to several per history, with the library's own default sent storage in a third of the cases; after each failure the library reconnects and resumes by itself and the broker acknowledges retransmissions as they arrive; compared with the model: retransmitted set (sequence numbers, resolved content), state, hooks; oracle on the broker's ledger after Close: every written point present with its payload under the first sequence number, all copies of one sequence number identical, totals; distinct = (policy, qos, pre-registration, op signature incl. failure positions)",
+        explanation="Lean theorems over histories with disconnect/resume events (projection to C01, store invariant, resume resends stored chunks with original number and content, delivery); tie = lock-step differential run with injected transport failures + ledger oracle",
+        assumptions=["the broker resumes the stream (success); refused resumes are C05", "the broker acknowledges every (re)transmitted chunk eventually"],
+    ),
 }
